@@ -25,6 +25,7 @@ import (
 	metav1 "k8s.io/apimachinery/pkg/apis/meta/v1"
 	apimachineryvalidation "k8s.io/apimachinery/pkg/util/validation"
 	"k8s.io/apimachinery/pkg/util/validation/field"
+	"k8s.io/client-go/tools/cache"
 	apivalidation "k8s.io/kubernetes/pkg/apis/core/validation"
 	"k8s.io/utils/clock"
 
@@ -74,6 +75,51 @@ func (v *Validator) ValidateJobConfig(rjc *v1alpha1.JobConfig) field.ErrorList {
 	allErrs := field.ErrorList{}
 	allErrs = append(allErrs, validation.ValidateMaxLength(rjc.Name, maxJobConfigNameLen, field.NewPath("metadata").Child("name"))...)
 	allErrs = append(allErrs, v.ValidateJobConfigSpec(&rjc.Spec, field.NewPath("spec"))...)
+	allErrs = append(allErrs, v.validateCronScheduleHashID(rjc, field.NewPath("spec", "schedule", "cron"))...)
+	return allErrs
+}
+
+// validateCronScheduleHashID checks that the cron expressions can also be parsed
+// with the hash ID that the scheduler uses for this JobConfig (its namespaced name).
+// Whether an expression with hashed fields can be parsed depends on the hash value
+// (e.g. "H(0-0)/2"), so parsing with an empty hash ID alone does not guarantee that
+// the scheduler is able to load the JobConfig.
+func (v *Validator) validateCronScheduleHashID(rjc *v1alpha1.JobConfig, fldPath *field.Path) field.ErrorList {
+	allErrs := field.ErrorList{}
+	if rjc.Spec.Schedule == nil || rjc.Spec.Schedule.Cron == nil || rjc.GetName() == "" {
+		return allErrs
+	}
+
+	// Errors loading the config are already reported by ValidateCronScheduleExpression.
+	cfg, err := v.ctrlContext.Configs().Cron()
+	if err != nil {
+		return allErrs
+	}
+	hashID, err := cache.MetaNamespaceKeyFunc(rjc)
+	if err != nil {
+		return allErrs
+	}
+	parser := cron.NewParserFromConfig(cfg)
+
+	validate := func(expression string, path *field.Path) {
+		// Expressions that cannot be parsed at all are already reported.
+		if _, err := parser.Parse(expression, ""); err != nil {
+			return
+		}
+		if _, err := parser.Parse(expression, hashID); err != nil {
+			allErrs = append(allErrs, field.Invalid(path, expression,
+				fmt.Sprintf("cannot parse cron schedule for %v: %v", hashID, err)))
+		}
+	}
+
+	spec := rjc.Spec.Schedule.Cron
+	if spec.Expression != "" {
+		validate(spec.Expression, fldPath.Child("expression"))
+	}
+	for i, expression := range spec.Expressions {
+		validate(expression, fldPath.Child("expressions").Index(i))
+	}
+
 	return allErrs
 }
 
